@@ -305,6 +305,67 @@ fn lib_elements(o: &mut Outcome, seed: u64) {
             o.violate("context-ignores-input-byte", "Context::new", format!("appending a byte to a {}-byte context input leaves the context unchanged", len));
         }
     }
+    // byte strings are hashed as byte strings, not as the numbers they might encode: a 32- or
+    // 64-byte input and the same little-endian integer plus a multiple of the scalar modulus are
+    // different inputs (a builder that reduces "scalar-sized" inputs before hashing aliases them)
+    for len in [32usize, 64] {
+        for k in 1..=2u8 {
+            let mut x = s.bytes(len);
+            x[31] &= 0x0f; // room for + 2q in the low 32 bytes
+            let mut y = x.clone();
+            let q = refc::bad::scalar_q();
+            for _ in 0..k {
+                let mut carry = 0u16;
+                for i in 0..len {
+                    let add = if i < 32 { q[i] as u16 } else { 0 };
+                    let v = y[i] as u16 + add + carry;
+                    y[i] = v as u8;
+                    carry = v >> 8;
+                }
+            }
+            o.bump("fault.tamper.modulus-alias");
+            o.events += 1;
+            let c1 = ChallengeBuilder::new().with(&a).with_bytes(&x).finish().to_scalar();
+            let c2 = ChallengeBuilder::new().with(&a).with_bytes(&y).finish().to_scalar();
+            if x != y && c1 == c2 {
+                o.violate("challenge-ignores-context-byte", "ChallengeBuilder::with_bytes(+q)", format!("a {}-byte input and the same little-endian integer plus {} times the scalar modulus give the same challenge", len, k));
+            }
+            if len == 32 {
+                let (cx, cy) = (za::Context::new(&x).as_bytes(), za::Context::new(&y).as_bytes());
+                if cx == cy {
+                    o.violate("context-ignores-input-byte", "Context::new(+q)", "a 32-byte context input and the same integer plus the scalar modulus give the same context".into());
+                }
+            }
+        }
+    }
+    // the challenge as a hash: over many distinct inputs it is never zero and never repeats (a zero
+    // challenge makes every verification equation independent of the statement; a small or biased
+    // challenge space lets a prover grind for a convenient one)
+    {
+        let n = 40_000u64;
+        let mut seen: std::collections::HashSet<[u8; 32]> = std::collections::HashSet::with_capacity(n as usize);
+        let tag = s.u64();
+        let mut zero = 0u64;
+        let mut dup = 0u64;
+        for i in 0..n {
+            let mut inp = tag.to_le_bytes().to_vec();
+            inp.extend_from_slice(&i.to_le_bytes());
+            let c = ChallengeBuilder::new().with_bytes(&inp).finish().to_scalar();
+            if c == Scalar::zero() {
+                zero += 1;
+            }
+            if !seen.insert(c.to_bytes()) {
+                dup += 1;
+            }
+        }
+        o.events += n;
+        o.add("probe.challenge_samples", n);
+        if zero > 0 {
+            o.violate("challenge-collision", "ChallengeBuilder::finish(zero)", format!("{} of {} distinct inputs give the ZERO challenge (every proof verifies under it, whatever the statement)", zero, n));
+        } else if dup > 0 {
+            o.violate("challenge-collision", "ChallengeBuilder::finish", format!("{} of {} distinct inputs repeat an earlier challenge", dup, n));
+        }
+    }
     // every byte position of a context fed with with_bytes
     let ctx = s.bytes(32);
     let base = ChallengeBuilder::new().with(&a).with_bytes(&ctx).finish().to_scalar();
@@ -323,6 +384,132 @@ fn lib_elements(o: &mut Outcome, seed: u64) {
     if ChallengeBuilder::new().with(&a).with_bytes(&c3).finish().to_scalar() == base {
         o.violate("challenge-ignores-context-byte", "ChallengeBuilder::with_bytes", "appending a zero byte to the context leaves the challenge unchanged".into());
     }
+}
+
+/// One input of a builder task.
+#[derive(Clone)]
+enum BIn {
+    S(Scalar),
+    P1(G1Projective),
+    P2(G2Projective),
+    B(Vec<u8>),
+}
+
+fn feed(b: &mut ChallengeBuilder, x: &BIn) {
+    match x {
+        BIn::S(v) => b.consume(v),
+        BIn::P1(v) => b.consume(v),
+        BIn::P2(v) => b.consume(v),
+        BIn::B(v) => b.consume_bytes(v),
+    }
+}
+
+/// Several challenge builders alive at once on one thread, their `consume` steps interleaved by a
+/// seeded scheduler; some are abandoned without `finish` (an error path). Every finished challenge
+/// must equal the challenge of the same inputs computed alone, start to finish, on a fresh thread.
+fn lib_builder_schedule(o: &mut Outcome, seed: u64) {
+    let mut s = Sched::new(seed, "c12/builder-schedule");
+    let ntasks = 2 + s.usize(3);
+    let mut tasks: Vec<(Vec<BIn>, bool)> = Vec::new();
+    for _ in 0..ntasks {
+        let n = 1 + s.usize(6);
+        let mut v = Vec::new();
+        for _ in 0..n {
+            v.push(match s.usize(4) {
+                0 => BIn::S(refc::rand_scalar(&mut s)),
+                1 => BIn::P1(refc::rand_g1(&mut s)),
+                2 => BIn::P2(refc::rand_g2(&mut s)),
+                _ => {
+                    let l = s.usize(70);
+                    BIn::B(s.bytes(l))
+                }
+            });
+        }
+        let abandon = s.chance(1, 4);
+        tasks.push((v, abandon));
+    }
+    if tasks.iter().all(|t| t.1) {
+        tasks[0].1 = false;
+    }
+    // reference: each task alone on a fresh thread
+    let refs: Vec<[u8; 32]> = {
+        let ts = tasks.clone();
+        std::thread::spawn(move || {
+            ts.iter()
+                .map(|(inp, _)| {
+                    let mut b = ChallengeBuilder::new();
+                    for x in inp {
+                        feed(&mut b, x);
+                    }
+                    b.finish().to_scalar().to_bytes()
+                })
+                .collect()
+        })
+        .join()
+        .unwrap_or_else(|_| crate::harness_error("C12 builder-schedule: reference thread panicked"))
+    };
+    // the interleaved execution
+    let mut live: Vec<Option<ChallengeBuilder>> = Vec::new();
+    let mut pos: Vec<usize> = vec![0; ntasks];
+    let mut started = 0usize;
+    let mut done: Vec<Option<[u8; 32]>> = vec![None; ntasks];
+    let mut finished = 0usize;
+    let mut order = String::new();
+    while finished < ntasks {
+        // either start the next task or step a live one
+        let can_start = started < ntasks;
+        let live_ids: Vec<usize> = (0..started).filter(|&i| live[i].is_some()).collect();
+        if can_start && (live_ids.is_empty() || s.chance(1, 3)) {
+            live.push(Some(ChallengeBuilder::new()));
+            started += 1;
+            order.push_str(&format!("n{} ", started - 1));
+            o.events += 1;
+            continue;
+        }
+        let i = *s.pick(&live_ids);
+        let (inp, abandon) = &tasks[i];
+        o.events += 1;
+        if *abandon && pos[i] >= inp.len() / 2 {
+            // error path: the builder is dropped half way
+            live[i] = None;
+            finished += 1;
+            order.push_str(&format!("d{} ", i));
+            o.bump("fault.schedule.builder-abandoned");
+            continue;
+        }
+        if pos[i] < inp.len() {
+            feed(live[i].as_mut().unwrap(), &inp[pos[i]]);
+            pos[i] += 1;
+            order.push_str(&format!("c{} ", i));
+        } else {
+            let b = live[i].take().unwrap();
+            done[i] = Some(b.finish().to_scalar().to_bytes());
+            finished += 1;
+            order.push_str(&format!("f{} ", i));
+        }
+    }
+    o.bump("fault.schedule.builders-interleaved");
+    let any_abandoned = tasks.iter().any(|t| t.1);
+    for i in 0..ntasks {
+        if let Some(c) = done[i] {
+            if c != refs[i] {
+                let (class, site) = if any_abandoned { ("challenge-depends-on-other-builder", "ChallengeBuilder(interleaved, one abandoned)") } else { ("challenge-depends-on-other-builder", "ChallengeBuilder(interleaved)") };
+                o.violate(class, site, format!("builder {} of {} fed the same inputs gives another challenge when other builders are alive on the thread (schedule: {})", i, ntasks, order.trim()));
+            }
+        }
+    }
+    // and once more alone on this thread, after the abandoned builders: still the same
+    for i in 0..ntasks {
+        let mut b = ChallengeBuilder::new();
+        for x in &tasks[i].0 {
+            feed(&mut b, x);
+        }
+        if b.finish().to_scalar().to_bytes() != refs[i] {
+            o.violate("challenge-depends-on-other-builder", "ChallengeBuilder(after abandoned builder)", format!("a challenge computed after the schedule `{}` differs from the same inputs hashed on a fresh thread", order.trim()));
+            break;
+        }
+    }
+    o.nontrivial = true;
 }
 
 fn lib_range(o: &mut Outcome, seed: u64) {
@@ -618,6 +805,9 @@ impl Prop for C12 {
                 v.push(json!({"f": "lib", "n": n, "seed": mix(&[seed, 0xC12, rep as u64, n as u64])}));
             }
             v.push(json!({"f": "elements", "seed": mix(&[seed, 0xC12E, rep as u64])}));
+            for k in 0..(if tier == Tier::Quick { 12u64 } else { 40 }) {
+                v.push(json!({"f": "builder-schedule", "seed": mix(&[seed, 0xC12D, rep as u64, k])}));
+            }
             for k in 0..7u64 {
                 v.push(json!({"f": "range", "seed": mix(&[seed, 0xC12A, rep as u64]) / 7 * 7 + k}));
             }
@@ -645,6 +835,7 @@ impl Prop for C12 {
                 _ => crate::harness_error("C12: bad N"),
             },
             "elements" => lib_elements(&mut o, seed),
+            "builder-schedule" => lib_builder_schedule(&mut o, seed),
             "range" => lib_range(&mut o, seed),
             "establish" => abacus_establish(&mut o, seed),
             "pay" => abacus_pay(&mut o, seed, case["share"].as_u64().unwrap_or(1) as usize),
@@ -657,7 +848,7 @@ impl Prop for C12 {
         o
     }
     fn rule(&self) -> String {
-        "one case = one honest proof (commitment / signature / signature-request proof for N in {1,2,3,5,8,13} in G1 and G2; range constraint; establish proof; pay proof) or ChallengeInput value (public key, Pedersen parameters, range parameters, commitment, signature, blinded message / signature, scalar, group elements, context bytes) travelling to its verifier, with EVERY non-response atom of its wire form (enumerated by the atom tracer; counts 2/4/2/36/8/84 asserted) replaced in turn by another valid element after the prover fixed the challenge; the verifier-side challenge (public ChallengeBuilder at library level, challenge-recorder hook inside initialize / allow_payment at zkAbacus level) must differ from the untampered one. Also each verifier-side input (key, agreed values, nonce, context byte, range parameters) replaced; same-shaped sub-structures swapped wholesale (digit proofs, the two range constraints, the state / close-state sub-proofs); and adjacent scalars trading a byte across their boundary (both endiannesses). Distinct = distinct case; every case injects faults".into()
+        "one case = one honest proof (commitment / signature / signature-request proof for N in {1,2,3,5,8,13} in G1 and G2; range constraint; establish proof; pay proof) or ChallengeInput value (public key, Pedersen parameters, range parameters, commitment, signature, blinded message / signature, scalar, group elements, context bytes) travelling to its verifier, with EVERY non-response atom of its wire form (enumerated by the atom tracer; counts 2/4/2/36/8/84 asserted) replaced in turn by another valid element after the prover fixed the challenge; the verifier-side challenge (public ChallengeBuilder at library level, challenge-recorder hook inside initialize / allow_payment at zkAbacus level) must differ from the untampered one. Also each verifier-side input (key, agreed values, nonce, context byte, range parameters) replaced; same-shaped sub-structures swapped wholesale (digit proofs, the two range constraints, the state / close-state sub-proofs); and adjacent scalars trading a byte across their boundary (both endiannesses); 32/64-byte inputs plus multiples of the scalar modulus; 40000 distinct inputs per case whose challenges must be non-zero and pairwise distinct; builder-schedule cases: 2-4 challenge builders alive on one thread, their consume steps interleaved by the seeded scheduler, a quarter of them abandoned half way, every finished challenge compared with the same inputs hashed alone on a fresh thread. Distinct = distinct case; every case injects faults".into()
     }
     fn assumptions(&self) -> Vec<String> {
         vec![
@@ -667,6 +858,6 @@ impl Prop for C12 {
         ]
     }
     fn required_probes(&self, _tier: Tier) -> Vec<&'static str> {
-        vec!["fault.tamper.first-move-atom", "fault.tamper.context-byte", "fault.tamper.verifier-input", "fault.tamper.permutation", "fault.tamper.boundary-shift", "fault.entropy.prover-zero-draw", "probe.builder_proof_challenges_equal"]
+        vec!["fault.tamper.first-move-atom", "fault.tamper.context-byte", "fault.tamper.verifier-input", "fault.tamper.permutation", "fault.tamper.boundary-shift", "fault.entropy.prover-zero-draw", "probe.builder_proof_challenges_equal", "fault.schedule.builders-interleaved", "fault.schedule.builder-abandoned", "fault.tamper.modulus-alias", "probe.challenge_samples"]
     }
 }
